@@ -323,12 +323,18 @@ var shapes = []string{
 	"x := id(a)", "x := add(a, b)", "noop()", "x := add(id(a), id(b))", "x := a", "_ = a",
 	"x := a ;; if a > b { x = b } else { }", "x := a ;; if a > b { } else { x = b }", "x := 0 ;; for i := 0; i < 3; i++ { x += i }", "x := 0 ;; for { x++ ;; if x > 2 { break } }",
 	"mi[3000000000] = a ;; v9, ok9 := mi[3000000000] ;; fmt.Println(v9, ok9)", "nz := f - f ;; nz = nz * -1 ;; nz = nz - 0 ;; fmt.Println(1 / nz)",
+	// variadic functions and methods with typed tails, receivers in locals, fields and globals
+	"fmt.Println(p.Ratio(1, 2))", "fmt.Println(p.Wrap(200, 100))", "x := p.Sum(1, 2, 3)", "fmt.Println(p.Cat(\"a\", \"b\", \"c\"))", "fmt.Println(p.N.Ratio(3, 2))",
+	"q := p.N ;; fmt.Println(q.Wrap(250, 10), q.Ratio(1, 4))", "fmt.Println(ratio(1, 2), wrap(200, 100))", "fr := p.Ratio ;; fmt.Println(fr(1, 2))", "fs := []float64{1, 2} ;; fmt.Println(p.Ratio(fs...))",
+	"fmt.Println(p.Ratio(), p.Sum(), len(p.Cat(\"z\")))", "x := p.Sum(a, b) + p.Sum(1)", "fmt.Println(gp.Ratio(1, 2), gp.Wrap(200, 100))",
 	"x := a > 1 && b > 1", "x := a > 1 || b/(a-a) > 1", "x := nm[\"k\"]", "x := len(ns)", "x := -a", "x := ^a", "x := a &^ 1", "x := a << 2 - 1",
 }
 
 func shapeSrc(shape string, position int) string {
 	hdr := "import \"fmt\"\ntype P struct { V int; N *P }\nfunc (p *P) Get() int { return p.V }\nfunc (p *P) Add(a int) int { return p.V + a }\nfunc (p *P) Set(a int) { p.V = a }\n" +
-		"func id(a int) int { return a }\nfunc add(a int, b int) int { return a + b }\nfunc noop() { }\nvar ga, gb int = 7, 3\n"
+		"func id(a int) int { return a }\nfunc add(a int, b int) int { return a + b }\nfunc noop() { }\nvar ga, gb int = 7, 3\n" +
+		"func (p *P) Ratio(xs ...float64) float64 { if len(xs) < 2 { return -1 }; return xs[0] / xs[1] }\nfunc (p *P) Wrap(xs ...byte) byte { return xs[0] + xs[1] }\nfunc (p *P) Sum(xs ...int) int { t := p.V; for _, x := range xs { t += x }; return t }\n" +
+		"func (p *P) Cat(pre string, xs ...string) string { for _, x := range xs { pre += x }; return pre }\nfunc ratio(xs ...float64) float64 { return xs[0] / xs[1] }\nfunc wrap(xs ...byte) byte { return xs[0] + xs[1] }\nvar gp = &P{V: 1}\n"
 	locals := "a, b := 7, 3; f := 1.5; var u8 uint8 = 255; var i8 int8 = 100; var u32 uint32 = 0; s := \"s\"; sl := []int{1, 2, 3}; m := map[string]int{\"k\": 1}; mi := map[uint32]int{1: 1}; p := &P{V: 5, N: &P{V: 6}}; var nm map[string]int; var ns []int; x := 0; _ = x"
 	dump := "fmt.Println(a, b, f, u8, i8, u32, s, sl, len(m), m[\"k\"], m[\"z\"], len(mi), mi[3000000000], p.V, p.N.V, len(nm), len(ns))"
 	stmt := strings.ReplaceAll(shape, "x :=", "x =")
